@@ -4,6 +4,8 @@ import NitroVerif.Spec.Imports
 namespace NitroVerif.Imports
 open NitroVerif.Imports.Spec
 
+set_option linter.unusedSectionVars false
+
 variable {κ ρ : Type} [DecidableEq κ] [DecidableEq ρ]
 
 /-! ### selection of definitions by an import line -/
@@ -405,5 +407,670 @@ theorem iter_fuel (n : Nat) : ∀ (doc : κ) (imps : List (Import ρ)) (st : St 
         exact ihn _ _ (enter st (res doc imp.rel)) (by simp only [enter]; omega) he
       · have hle := step_mono res fs (expandFuel_mono res fs (n + 1)) hs
         exact ih st1 (Nat.le_trans (unexp_anti fs hle.exp) hn) hr
+
+/-! ### what a call of the traversal establishes -/
+
+variable (root : κ) (rootFile : File ρ)
+
+/-- the import line `imp` of document `doc` has been processed in state `st` -/
+def Proc (st : St κ) (doc : κ) (imp : Import ρ) : Prop :=
+  ∃ f, fs.lookup (res doc imp.rel) = some f ∧ res doc imp.rel ∈ st.expanded ∧
+    missingTarget imp.targets f.defs = none ∧
+    ∀ i ∈ selectedIdx imp.targets f.defs, (res doc imp.rel, i) ∈ st.requested
+
+theorem Proc.mono {st st' : St κ} {doc : κ} {imp : Import ρ} (h : Proc res fs st doc imp) (hle : Le st st') :
+    Proc res fs st' doc imp := by
+  obtain ⟨f, h1, h2, h3, h4⟩ := h
+  exact ⟨f, h1, hle.exp _ h2, h3, fun i hi => hle.req _ (h4 i hi)⟩
+
+/-- every import line of the document at `q` has been processed -/
+def Done (st : St κ) (q : κ) : Prop := ∀ imp ∈ importsOf fs root rootFile q, Proc res fs st q imp
+
+theorem Done.mono {st st' : St κ} {q : κ} (h : Done res fs root rootFile st q) (hle : Le st st') :
+    Done res fs root rootFile st' q := fun imp hi => (h imp hi).mono res fs hle
+
+/-- a requested definition is backed by an import line of a reachable file -/
+def ReqJust (x : DefId κ) : Prop :=
+  ∃ q imp f, Reach res fs root rootFile q ∧ imp ∈ importsOf fs root rootFile q ∧ res q imp.rel = x.1 ∧
+    fs.lookup x.1 = some f ∧ x.2 ∈ selectedIdx imp.targets f.defs
+
+structure Inv (st : St κ) : Prop where
+  root_exp : root ∈ st.expanded
+  reach : ∀ q ∈ st.expanded, Reach res fs root rootFile q
+  just : ∀ x ∈ st.requested, ReqJust res fs root rootFile x
+  nodup : st.finished.Nodup
+  fin_exp : ∀ q ∈ st.finished, q ∈ st.expanded
+
+structure Post (doc : κ) (imps : List (Import ρ)) (st st' : St κ) : Prop where
+  le : Le st st'
+  inv : Inv res fs root rootFile st'
+  proc : ∀ imp ∈ imps, Proc res fs st' doc imp
+  new : ∀ q ∈ st'.expanded, q ∉ st.expanded → Done res fs root rootFile st' q ∧ q ∈ st'.finished
+  finNew : ∀ q ∈ st'.finished, q ∈ st.finished ∨ q ∉ st.expanded
+
+/-- an error is raised only for a dangling / missing-name import line of a reachable file -/
+inductive ErrJust : ImpErr κ ρ → Prop where
+  | dangling {q : κ} {imp : Import ρ} : Reach res fs root rootFile q → imp ∈ importsOf fs root rootFile q →
+      fs.lookup (res q imp.rel) = none → ErrJust (.fileNotFound q imp.rel imp.line)
+  | missing {q : κ} {imp : Import ρ} {f : File ρ} {id : Ident} : Reach res fs root rootFile q →
+      imp ∈ importsOf fs root rootFile q → fs.lookup (res q imp.rel) = some f →
+      missingTarget imp.targets f.defs = some id → ErrJust (.fragmentNotFound q imp.rel id)
+
+def Outcome (doc : κ) (imps : List (Import ρ)) (st : St κ) : Res κ ρ (St κ) → Prop
+  | .ok st' => Post res fs root rootFile doc imps st st'
+  | .err e => ErrJust res fs root rootFile e
+  | .outOfFuel => True
+
+def Sound (expand : κ → List (Import ρ) → St κ → Res κ ρ (St κ)) : Prop :=
+  ∀ doc imps st, Inv res fs root rootFile st → Reach res fs root rootFile doc →
+    (∀ imp ∈ imps, imp ∈ importsOf fs root rootFile doc) →
+    Outcome res fs root rootFile doc imps st (expand doc imps st)
+
+theorem defsAt_of_lookup {p : κ} {f : File ρ} (h : fs.lookup p = some f) : defsAt fs p = some f.defs := by
+  simp [defsAt, h]
+
+theorem enter_pre {st : St κ} {doc : κ} {imp : Import ρ} {file : File ρ}
+    (hinv : Inv res fs root rootFile st) (hdoc : Reach res fs root rootFile doc)
+    (himp : imp ∈ importsOf fs root rootFile doc) (hl : fs.lookup (res doc imp.rel) = some file)
+    (hp : res doc imp.rel ∉ st.expanded) :
+    Inv res fs root rootFile (enter st (res doc imp.rel)) ∧ Reach res fs root rootFile (res doc imp.rel) ∧
+      importsOf fs root rootFile (res doc imp.rel) = file.imports := by
+  have hreach : Reach res fs root rootFile (res doc imp.rel) :=
+    Reach.step hdoc himp (by simp [defsAt_of_lookup fs hl])
+  have hne : res doc imp.rel ≠ root := fun e => hp (e ▸ hinv.root_exp)
+  refine ⟨⟨?_, ?_, hinv.just, hinv.nodup, ?_⟩, hreach, ?_⟩
+  · exact List.mem_cons_of_mem _ hinv.root_exp
+  · intro q hq
+    rcases List.mem_cons.mp hq with rfl | hq
+    · exact hreach
+    · exact hinv.reach q hq
+  · intro q hq
+    exact List.mem_cons_of_mem _ (hinv.fin_exp q hq)
+  · simp [importsOf, hne, hl]
+
+theorem just_record {st1 : St κ} {doc : κ} {imp : Import ρ} {file : File ρ}
+    (hdoc : Reach res fs root rootFile doc) (himp : imp ∈ importsOf fs root rootFile doc)
+    (hl : fs.lookup (res doc imp.rel) = some file) (hj : ∀ x ∈ st1.requested, ReqJust res fs root rootFile x) :
+    ∀ x ∈ (record st1 (res doc imp.rel) imp.targets file.defs).requested, ReqJust res fs root rootFile x := by
+  intro x hx
+  simp only [record, List.mem_append, List.mem_map] at hx
+  rcases hx with hx | ⟨i, hi, rfl⟩
+  · exact hj x hx
+  · exact ⟨doc, imp, file, hdoc, himp, rfl, hl, hi⟩
+
+theorem proc_record {st1 : St κ} {doc : κ} {imp : Import ρ} {file : File ρ}
+    (hl : fs.lookup (res doc imp.rel) = some file) (hm : missingTarget imp.targets file.defs = none)
+    (hp : res doc imp.rel ∈ st1.expanded) :
+    Proc res fs (record st1 (res doc imp.rel) imp.targets file.defs) doc imp :=
+  ⟨file, hl, hp, hm, fun i hi => by
+    simp only [record, List.mem_append, List.mem_map]
+    exact Or.inr ⟨i, hi, rfl⟩⟩
+
+theorem step_sound {expand : κ → List (Import ρ) → St κ → Res κ ρ (St κ)}
+    (hs : Sound res fs root rootFile expand) {doc : κ} {st : St κ} {imp : Import ρ}
+    (hinv : Inv res fs root rootFile st) (hdoc : Reach res fs root rootFile doc)
+    (himp : imp ∈ importsOf fs root rootFile doc) :
+    Outcome res fs root rootFile doc [imp] st (step res fs expand doc st imp) := by
+  cases hr : step res fs expand doc st imp with
+  | outOfFuel => trivial
+  | err e =>
+    show ErrJust res fs root rootFile e
+    rcases step_err_inv res fs hr with ⟨hl, rfl⟩ | ⟨file, hl, hp, he⟩ | ⟨file, id, hl, hm, rfl⟩
+    · exact ErrJust.dangling hdoc himp hl
+    · obtain ⟨hinv', hreach, himps⟩ := enter_pre res fs root rootFile hinv hdoc himp hl hp
+      have := hs _ file.imports _ hinv' hreach (by intro i hi; rw [himps]; exact hi)
+      rw [he] at this
+      exact this
+    · exact ErrJust.missing hdoc himp hl hm
+  | ok st' =>
+    show Post res fs root rootFile doc [imp] st st'
+    obtain ⟨file, st1, hl, hm, hst, hc⟩ := step_ok_inv res fs hr
+    clear hr
+    subst hst
+    rcases hc with ⟨hp, rfl⟩ | ⟨hp, st0, he, rfl⟩
+    · refine ⟨le_record _ _ _ _, ⟨hinv.root_exp, hinv.reach, ?_, hinv.nodup, hinv.fin_exp⟩, ?_, ?_, ?_⟩
+      · exact just_record res fs root rootFile hdoc himp hl hinv.just
+      · intro i hi
+        rw [List.mem_singleton.mp hi]
+        exact proc_record res fs hl hm hp
+      · intro q hq hnq; exact absurd hq hnq
+      · intro q hq; exact Or.inl hq
+    · obtain ⟨hinv', hreach, himps⟩ := enter_pre res fs root rootFile hinv hdoc himp hl hp
+      have P0 := hs _ file.imports _ hinv' hreach (by intro i hi; rw [himps]; exact hi)
+      rw [he] at P0
+      change Post res fs root rootFile (res doc imp.rel) file.imports (enter st (res doc imp.rel)) st0 at P0
+      have hle1 : Le st0 (record (leave st0 (res doc imp.rel)) (res doc imp.rel) imp.targets file.defs) :=
+        (le_leave _ _).trans (le_record _ _ _ _)
+      have hpexp : res doc imp.rel ∈ st0.expanded := P0.le.exp _ (by simp [enter])
+      have hpfin : res doc imp.rel ∉ st0.finished := by
+        intro hin
+        rcases P0.finNew _ hin with h | h
+        · exact hp (hinv.fin_exp _ h)
+        · exact h (by simp [enter])
+      refine ⟨((le_enter st _).trans P0.le).trans hle1, ⟨P0.inv.root_exp, P0.inv.reach, ?_, ?_, ?_⟩, ?_, ?_, ?_⟩
+      · exact just_record res fs root rootFile hdoc himp hl P0.inv.just
+      · show (st0.finished ++ [res doc imp.rel]).Nodup
+        rw [List.nodup_append]
+        refine ⟨P0.inv.nodup, by simp, ?_⟩
+        intro a ha b hb
+        rw [List.mem_singleton.mp hb]
+        intro e; subst e; exact hpfin ha
+      · intro q hq
+        change q ∈ st0.finished ++ [res doc imp.rel] at hq
+        change q ∈ st0.expanded
+        rcases List.mem_append.mp hq with hq | hq
+        · exact P0.inv.fin_exp q hq
+        · rw [List.mem_singleton.mp hq]; exact hpexp
+      · intro i hi
+        rw [List.mem_singleton.mp hi]
+        exact proc_record res fs hl hm hpexp
+      · intro q hq hnq
+        change q ∈ st0.expanded at hq
+        by_cases hqp : q = res doc imp.rel
+        · subst hqp
+          refine ⟨?_, ?_⟩
+          · intro imp' hi'
+            rw [himps] at hi'
+            exact (P0.proc imp' hi').mono res fs hle1
+          · show res doc imp.rel ∈ st0.finished ++ [res doc imp.rel]
+            simp
+        · have hnq' : q ∉ (enter st (res doc imp.rel)).expanded := by
+            simp only [enter, List.mem_cons, not_or]; exact ⟨hqp, hnq⟩
+          obtain ⟨hd, hf⟩ := P0.new q hq hnq'
+          exact ⟨hd.mono res fs root rootFile hle1, hle1.fin _ hf⟩
+      · intro q hq
+        change q ∈ st0.finished ++ [res doc imp.rel] at hq
+        rcases List.mem_append.mp hq with hq | hq
+        · rcases P0.finNew q hq with h | h
+          · exact Or.inl h
+          · right; intro hin; exact h (List.mem_cons_of_mem _ hin)
+        · rw [List.mem_singleton.mp hq]; exact Or.inr hp
+
+theorem Post.nil {doc : κ} {st : St κ} (hinv : Inv res fs root rootFile st) :
+    Post res fs root rootFile doc [] st st :=
+  ⟨Le.refl _, hinv, (fun i hi => by cases hi), fun q hq hnq => absurd hq hnq, fun q hq => Or.inl hq⟩
+
+theorem Post.trans {doc : κ} {imp : Import ρ} {rest : List (Import ρ)} {st st1 st' : St κ}
+    (h1 : Post res fs root rootFile doc [imp] st st1) (h2 : Post res fs root rootFile doc rest st1 st') :
+    Post res fs root rootFile doc (imp :: rest) st st' := by
+  refine ⟨h1.le.trans h2.le, h2.inv, ?_, ?_, ?_⟩
+  · intro i hi
+    rcases List.mem_cons.mp hi with rfl | hi
+    · exact (h1.proc i (by simp)).mono res fs h2.le
+    · exact h2.proc i hi
+  · intro q hq hnq
+    by_cases h : q ∈ st1.expanded
+    · obtain ⟨hd, hf⟩ := h1.new q h hnq
+      exact ⟨hd.mono res fs root rootFile h2.le, h2.le.fin _ hf⟩
+    · exact h2.new q hq h
+  · intro q hq
+    rcases h2.finNew q hq with h | h
+    · exact h1.finNew q h
+    · right; intro hin; exact h (h1.le.exp _ hin)
+
+theorem iter_sound {expand : κ → List (Import ρ) → St κ → Res κ ρ (St κ)}
+    (hs : Sound res fs root rootFile expand) : Sound res fs root rootFile (iter res fs expand) := by
+  intro doc imps
+  induction imps with
+  | nil => intro st hinv _ _; simp only [iter]; exact Post.nil res fs root rootFile hinv
+  | cons imp rest ih =>
+    intro st hinv hdoc himps
+    have h1 := step_sound res fs root rootFile hs hinv hdoc (himps imp (by simp))
+    simp only [iter]
+    cases hr : step res fs expand doc st imp with
+    | outOfFuel => trivial
+    | err e => rw [hr] at h1; exact h1
+    | ok st1 =>
+      rw [hr] at h1
+      change Post res fs root rootFile doc [imp] st st1 at h1
+      have h2 := ih st1 h1.inv hdoc (fun i hi => himps i (List.mem_cons_of_mem _ hi))
+      show Outcome res fs root rootFile doc (imp :: rest) st (iter res fs expand doc rest st1)
+      cases hr2 : iter res fs expand doc rest st1 with
+      | outOfFuel => trivial
+      | err e => rw [hr2] at h2; exact h2
+      | ok st' =>
+        rw [hr2] at h2
+        exact Post.trans res fs root rootFile h1 h2
+
+theorem expandFuel_sound (n : Nat) : Sound res fs root rootFile (expandFuel res fs n) := by
+  induction n with
+  | zero => intro doc imps st _ _ _; simp only [expandFuel]; trivial
+  | succ n ih => intro doc imps st h1 h2 h3; exact iter_sound res fs root rootFile ih doc imps st h1 h2 h3
+
+/-! ### the top-level call -/
+
+theorem importsOf_root : importsOf fs root rootFile root = rootFile.imports := by simp [importsOf]
+
+theorem inv_init : Inv res fs root rootFile (initSt root) :=
+  ⟨by simp [initSt], by intro q hq; simp [initSt] at hq; subst hq; exact Reach.root,
+   by intro x hx; simp [initSt] at hx, by simp [initSt], by intro q hq; simp [initSt] at hq⟩
+
+theorem top_sound : Outcome res fs root rootFile root rootFile.imports (initSt root)
+    (expandFuel res fs (fs.length + 1) root rootFile.imports (initSt root)) :=
+  expandFuel_sound res fs root rootFile _ root rootFile.imports (initSt root) (inv_init res fs root rootFile)
+    Reach.root (by intro i hi; rw [importsOf_root]; exact hi)
+
+theorem top_fuel : expandFuel res fs (fs.length + 1) root rootFile.imports (initSt root) ≠ .outOfFuel :=
+  iter_fuel res fs fs.length root rootFile.imports (initSt root) (unexp_le_length fs _)
+
+theorem resolve_ok {out : List (DefId κ)} (h : resolve res fs root rootFile = .ok out) :
+    ∃ st, Post res fs root rootFile root rootFile.imports (initSt root) st ∧ out = emit fs st := by
+  have hs := top_sound res fs root rootFile
+  unfold resolve at h
+  cases hr : expandFuel res fs (fs.length + 1) root rootFile.imports (initSt root) with
+  | ok st => rw [hr] at h hs; injection h with h; exact ⟨st, hs, h.symm⟩
+  | err e => rw [hr] at h; cases h
+  | outOfFuel => rw [hr] at h; cases h
+
+theorem resolve_err {e : ImpErr κ ρ} (h : resolve res fs root rootFile = .err e) :
+    ErrJust res fs root rootFile e := by
+  have hs := top_sound res fs root rootFile
+  unfold resolve at h
+  cases hr : expandFuel res fs (fs.length + 1) root rootFile.imports (initSt root) with
+  | ok st => rw [hr] at h; cases h
+  | err e' => rw [hr] at h hs; injection h with h; rw [← h]; exact hs
+  | outOfFuel => rw [hr] at h; cases h
+
+theorem resolve_fuel : resolve res fs root rootFile ≠ .outOfFuel := by
+  intro h
+  unfold resolve at h
+  cases hr : expandFuel res fs (fs.length + 1) root rootFile.imports (initSt root) with
+  | ok st => rw [hr] at h; cases h
+  | err e' => rw [hr] at h; cases h
+  | outOfFuel => exact top_fuel res fs root rootFile hr
+
+/-- in the final state the expanded files are closed under import lines, and all their lines are processed -/
+theorem post_closed {st : St κ} (hp : Post res fs root rootFile root rootFile.imports (initSt root) st) :
+    ∀ q, Reach res fs root rootFile q → q ∈ st.expanded ∧ Done res fs root rootFile st q := by
+  have hdone : ∀ q ∈ st.expanded, Done res fs root rootFile st q := by
+    intro q hq
+    by_cases hqr : q = root
+    · subst hqr
+      intro imp hi
+      rw [importsOf_root] at hi
+      exact hp.proc imp hi
+    · exact (hp.new q hq (by simpa [initSt] using hqr)).1
+  intro q hq
+  induction hq with
+  | root => exact ⟨hp.inv.root_exp, hdone _ hp.inv.root_exp⟩
+  | step _ himp _ ih =>
+    obtain ⟨f, _, hexp, _, _⟩ := ih.2 _ himp
+    exact ⟨hexp, hdone _ hexp⟩
+
+theorem post_finished {st : St κ} (hp : Post res fs root rootFile root rootFile.imports (initSt root) st) (q : κ) :
+    q ∈ st.finished ↔ q ∈ st.expanded ∧ q ≠ root := by
+  constructor
+  · intro hq
+    refine ⟨hp.inv.fin_exp q hq, ?_⟩
+    rcases hp.finNew q hq with h | h
+    · simp [initSt] at h
+    · simpa [initSt] using h
+  · rintro ⟨hq, hne⟩
+    exact (hp.new q hq (by simpa [initSt] using hne)).2
+
+/-! ### the final loop -/
+
+theorem mem_emitFile {R : List (DefId κ)} {p : κ} {x : DefId κ} :
+    x ∈ emitFile fs R p ↔ x.1 = p ∧ x ∈ R ∧ ∃ f, fs.lookup p = some f ∧ x.2 < f.defs.length := by
+  unfold emitFile
+  cases hl : fs.lookup p with
+  | none => simp
+  | some f =>
+    simp only [List.mem_map, List.mem_filter, List.mem_range, decide_eq_true_eq, Option.some.injEq,
+      exists_eq_left']
+    constructor
+    · rintro ⟨i, ⟨hi, hr⟩, rfl⟩
+      exact ⟨rfl, hr, hi⟩
+    · rintro ⟨h1, h2, h3⟩
+      obtain ⟨a, b⟩ := x
+      simp only at h1 h3
+      subst h1
+      exact ⟨b, ⟨h3, h2⟩, rfl⟩
+
+theorem mem_emit {st : St κ} {x : DefId κ} :
+    x ∈ emit fs st ↔ x.1 ∈ st.finished ∧ x ∈ st.requested ∧ ∃ f, fs.lookup x.1 = some f ∧ x.2 < f.defs.length := by
+  unfold emit
+  simp only [List.mem_flatMap, mem_emitFile]
+  constructor
+  · rintro ⟨p, hp, rfl, h2, h3⟩
+    exact ⟨hp, h2, h3⟩
+  · rintro ⟨h1, h2, h3⟩
+    exact ⟨x.1, h1, rfl, h2, h3⟩
+
+theorem nodup_emitFile (R : List (DefId κ)) (p : κ) : (emitFile fs R p).Nodup := by
+  unfold emitFile
+  cases fs.lookup p with
+  | none => simp
+  | some f =>
+    simp only [List.Nodup]
+    rw [List.pairwise_map]
+    refine List.Pairwise.imp ?_ (List.Pairwise.filter _ List.nodup_range)
+    intro a b hab h
+    injection h with _ h
+    exact hab h
+
+theorem nodup_emit {st : St κ} (h : st.finished.Nodup) : (emit fs st).Nodup := by
+  unfold emit
+  simp only [List.Nodup]
+  rw [List.pairwise_flatMap]
+  refine ⟨fun a _ => nodup_emitFile fs _ a, List.Pairwise.imp ?_ h⟩
+  intro a b hab x hx y hy e
+  rw [mem_emitFile] at hx hy
+  exact hab (by rw [← hx.1, ← hy.1, e])
+
+/-! ### the specification only looks at the set of import lines of each file -/
+
+omit [DecidableEq ρ] in
+theorem mem_rootIds {x : DefId κ} : x ∈ rootIds root rootFile ↔ x.1 = root ∧ x.2 < rootFile.defs.length := by
+  obtain ⟨a, b⟩ := x
+  simp only [rootIds, List.mem_map, List.mem_range, Prod.mk.injEq]
+  constructor
+  · rintro ⟨i, hi, rfl, rfl⟩; exact ⟨rfl, hi⟩
+  · rintro ⟨rfl, h⟩; exact ⟨b, h, rfl, rfl⟩
+
+section congr
+variable {fs} {rootFile} {fs' : FS κ ρ} {rootFile' : File ρ}
+variable (hd : ∀ p, defsAt fs p = defsAt fs' p)
+variable (hi : ∀ q imp, imp ∈ importsOf fs root rootFile q ↔ imp ∈ importsOf fs' root rootFile' q)
+include hd hi
+
+theorem reach_congr {q : κ} (h : Reach res fs root rootFile q) : Reach res fs' root rootFile' q := by
+  induction h with
+  | root => exact Reach.root
+  | step _ himp hsome ih => exact Reach.step ih ((hi _ _).mp himp) (by rw [← hd]; exact hsome)
+
+theorem selected_congr {x : DefId κ} (h : Selected res fs root rootFile x) : Selected res fs' root rootFile' x := by
+  obtain ⟨q, imp, ds, n, h1, h2, h3, h4, h5, h6⟩ := h
+  exact ⟨q, imp, ds, n, reach_congr res root hd hi h1, (hi _ _).mp h2, h3, by rw [← hd]; exact h4, h5, h6⟩
+
+theorem dangling_congr (h : Dangling res fs root rootFile) : Dangling res fs' root rootFile' := by
+  obtain ⟨q, imp, h1, h2, h3⟩ := h
+  exact ⟨q, imp, reach_congr res root hd hi h1, (hi _ _).mp h2, by rw [← hd]; exact h3⟩
+
+theorem missing_congr (h : MissingName res fs root rootFile) : MissingName res fs' root rootFile' := by
+  obtain ⟨q, imp, ds, n, h1, h2, h3, h4, h5⟩ := h
+  exact ⟨q, imp, ds, n, reach_congr res root hd hi h1, (hi _ _).mp h2, by rw [← hd]; exact h3, h4, h5⟩
+
+end congr
+
+/-- same definitions, import lines permuted -/
+def FilePerm (a b : File ρ) : Prop := a.defs = b.defs ∧ a.imports.Perm b.imports
+
+/-- the same configured documents, the import lines of each one permuted -/
+inductive FSPerm : FS κ ρ → FS κ ρ → Prop where
+  | nil : FSPerm [] []
+  | cons {k : κ} {f f' : File ρ} {l l' : FS κ ρ} : FilePerm f f' → FSPerm l l' → FSPerm ((k, f) :: l) ((k, f') :: l')
+
+omit [DecidableEq ρ] in
+theorem FilePerm.symm {a b : File ρ} (h : FilePerm a b) : FilePerm b a := ⟨h.1.symm, h.2.symm⟩
+
+omit [DecidableEq ρ] in
+theorem FSPerm.symm {fs fs' : FS κ ρ} (h : FSPerm fs fs') : FSPerm fs' fs := by
+  induction h with
+  | nil => exact FSPerm.nil
+  | cons hab _ ih => exact FSPerm.cons hab.symm ih
+
+omit [DecidableEq ρ] in
+theorem FSPerm.lookup {fs fs' : FS κ ρ} (h : FSPerm fs fs') (p : κ) :
+    (fs.lookup p = none ∧ fs'.lookup p = none) ∨
+    ∃ f f', fs.lookup p = some f ∧ fs'.lookup p = some f' ∧ FilePerm f f' := by
+  induction h with
+  | nil => left; simp
+  | @cons ka fa fb l l' hf _ ih =>
+    by_cases hp : p = ka
+    · subst hp
+      right
+      exact ⟨fa, fb, by simp, by simp, hf⟩
+    · have : (p == ka) = false := by simpa using hp
+      simpa [List.lookup_cons, this] using ih
+
+omit [DecidableEq ρ] in
+theorem FSPerm.defsAt {fs fs' : FS κ ρ} (h : FSPerm fs fs') (p : κ) : defsAt fs p = defsAt fs' p := by
+  rcases h.lookup p with ⟨h1, h2⟩ | ⟨f, f', h1, h2, h3⟩
+  · simp [Spec.defsAt, h1, h2]
+  · simp [Spec.defsAt, h1, h2, h3.1]
+
+omit [DecidableEq ρ] in
+theorem FSPerm.importsOf {fs fs' : FS κ ρ} {rootFile rootFile' : File ρ} (h : FSPerm fs fs')
+    (hr : FilePerm rootFile rootFile') (q : κ) (imp : Import ρ) :
+    imp ∈ importsOf fs root rootFile q ↔ imp ∈ importsOf fs' root rootFile' q := by
+  unfold Spec.importsOf
+  by_cases hq : q = root
+  · simp only [hq, if_true]; exact hr.2.mem_iff
+  · simp only [hq, if_false]
+    rcases h.lookup q with ⟨h1, h2⟩ | ⟨f, f', h1, h2, h3⟩
+    · simp [h1, h2]
+    · simp only [h1, h2]; exact h3.2.mem_iff
+
+/-! ### the executable reference computes the declarative one -/
+
+theorem mem_dedup {α : Type} [DecidableEq α] (l : List α) (a : α) : a ∈ dedup l ↔ a ∈ l := by
+  induction l with
+  | nil => simp [dedup]
+  | cons b l ih =>
+    unfold dedup
+    by_cases hb : b ∈ l
+    · simp only [hb, if_true, ih, List.mem_cons]
+      constructor
+      · exact Or.inr
+      · rintro (rfl | h)
+        · exact hb
+        · exact h
+    · simp [hb, ih]
+
+theorem nodup_dedup {α : Type} [DecidableEq α] (l : List α) : (dedup l).Nodup := by
+  induction l with
+  | nil => simp [dedup]
+  | cons b l ih =>
+    unfold dedup
+    by_cases hb : b ∈ l
+    · simpa [hb] using ih
+    · rw [if_neg hb, List.nodup_cons, mem_dedup]
+      exact ⟨hb, ih⟩
+
+theorem mem_targetsOf {S : List κ} {p : κ} :
+    p ∈ targetsOf res fs root rootFile S ↔
+      ∃ q ∈ S, ∃ imp ∈ importsOf fs root rootFile q, (defsAt fs (res q imp.rel)).isSome = true ∧ res q imp.rel = p := by
+  simp only [targetsOf, List.mem_flatMap, List.mem_filterMap]
+  constructor
+  · rintro ⟨q, hq, imp, hi, h⟩
+    by_cases hs : (defsAt fs (res q imp.rel)).isSome = true
+    · simp only [hs, if_true, Option.some.injEq] at h
+      exact ⟨q, hq, imp, hi, hs, h⟩
+    · simp [hs] at h
+  · rintro ⟨q, hq, imp, hi, hs, rfl⟩
+    exact ⟨q, hq, imp, hi, by simp [hs]⟩
+
+theorem closure_subset (n : Nat) (S : List κ) : ∀ q ∈ S, q ∈ closure res fs root rootFile n S := by
+  induction n generalizing S with
+  | zero => intro q hq; exact hq
+  | succ n ih =>
+    intro q hq
+    simp only [closure]
+    split
+    · exact hq
+    · exact ih _ q (List.mem_append_left _ hq)
+
+theorem closure_sound (n : Nat) (S : List κ) (hS : ∀ q ∈ S, Reach res fs root rootFile q) :
+    ∀ q ∈ closure res fs root rootFile n S, Reach res fs root rootFile q := by
+  induction n generalizing S with
+  | zero => exact hS
+  | succ n ih =>
+    simp only [closure]
+    split
+    · exact hS
+    · apply ih
+      intro q hq
+      rcases List.mem_append.mp hq with h | h
+      · exact hS q h
+      · obtain ⟨hq', _⟩ := List.mem_filter.mp h
+        obtain ⟨q0, hq0, imp, hi, hs, rfl⟩ := (mem_targetsOf res fs root rootFile).mp hq'
+        exact Reach.step (hS q0 hq0) hi hs
+
+/-- closed under import lines with an existing target -/
+def Closed (T : List κ) : Prop := ∀ p ∈ targetsOf res fs root rootFile T, p ∈ T
+
+omit [DecidableEq ρ] in
+theorem defsAt_isSome_mem_keys {p : κ} (h : (defsAt fs p).isSome = true) : p ∈ fs.map Prod.fst := by
+  unfold Spec.defsAt at h
+  cases hl : fs.lookup p with
+  | none => simp [hl] at h
+  | some f => exact lookup_some_mem_keys hl
+
+omit [DecidableEq ρ] in
+theorem unexp_zero_mem {E : List κ} (h : unexp fs E = 0) {p : κ} (hp : p ∈ fs.map Prod.fst) : p ∈ E := by
+  unfold unexp at h
+  have hnil : (fs.map Prod.fst).filter (fresh E) = [] := List.eq_nil_of_length_eq_zero h
+  have := (List.filter_eq_nil_iff.mp hnil) p hp
+  exact fresh_false.mp (by simpa using this)
+
+theorem closure_closed (n : Nat) (S : List κ) (hn : unexp fs S ≤ n) :
+    Closed res fs root rootFile (closure res fs root rootFile n S) := by
+  induction n generalizing S with
+  | zero =>
+    intro p hp
+    obtain ⟨q, _, imp, _, hs, rfl⟩ := (mem_targetsOf res fs root rootFile).mp hp
+    show res q imp.rel ∈ S
+    exact unexp_zero_mem fs (by omega) (defsAt_isSome_mem_keys fs hs)
+  | succ n ih =>
+    simp only [closure]
+    split
+    · rename_i hempty
+      intro p hp
+      by_cases hin : p ∈ S
+      · exact hin
+      · have : p ∈ (targetsOf res fs root rootFile S).filter (fun p => decide (p ∉ S)) :=
+          List.mem_filter.mpr ⟨hp, by simpa using hin⟩
+        rw [List.isEmpty_iff.mp hempty] at this
+        cases this
+    · rename_i hne
+      apply ih
+      cases hnew : (targetsOf res fs root rootFile S).filter (fun p => decide (p ∉ S)) with
+      | nil => rw [hnew] at hne; simp at hne
+      | cons p rest =>
+        have hpm : p ∈ (targetsOf res fs root rootFile S).filter (fun p => decide (p ∉ S)) := by
+          rw [hnew]; simp
+        obtain ⟨hpt, hpS⟩ := List.mem_filter.mp hpm
+        have hpS' : p ∉ S := by simpa using hpS
+        obtain ⟨q, _, imp, _, hs, rfl⟩ := (mem_targetsOf res fs root rootFile).mp hpt
+        have h1 := unexp_lt fs (defsAt_isSome_mem_keys fs hs) hpS'
+        have h2 : unexp fs (S ++ res q imp.rel :: rest) ≤ unexp fs (res q imp.rel :: S) :=
+          unexp_anti fs (by
+            intro x hx
+            rcases List.mem_cons.mp hx with rfl | hx
+            · simp
+            · exact List.mem_append_left _ hx)
+        omega
+
+theorem mem_reachList (q : κ) : q ∈ reachList res fs root rootFile ↔ Reach res fs root rootFile q := by
+  unfold reachList
+  constructor
+  · exact closure_sound res fs root rootFile _ _ (by intro q hq; simp at hq; subst hq; exact Reach.root) q
+  · intro h
+    have hc := closure_closed res fs root rootFile fs.length [root] (unexp_le_length fs _)
+    induction h with
+    | root => exact closure_subset res fs root rootFile _ _ root (by simp)
+    | step _ hi hs ih => exact hc _ ((mem_targetsOf res fs root rootFile).mpr ⟨_, ih, _, hi, hs, rfl⟩)
+
+theorem mem_requestedFrom (t : Targets) (ds : List Def) (k i : Nat) :
+    i ∈ requestedFrom t k ds ↔ ∃ j n, i = k + j ∧ ds[j]? = some (Def.frag n) ∧ Requests t n := by
+  induction ds generalizing k with
+  | nil => simp [requestedFrom]
+  | cons d ds ih =>
+    have shift : (∃ j n, i = k + 1 + j ∧ ds[j]? = some (Def.frag n) ∧ Requests t n) ↔
+        ∃ j n, i = k + (j + 1) ∧ (d :: ds)[j + 1]? = some (Def.frag n) ∧ Requests t n := by
+      constructor
+      · rintro ⟨j, n, rfl, h1, h2⟩; exact ⟨j, n, by omega, by simpa using h1, h2⟩
+      · rintro ⟨j, n, rfl, h1, h2⟩; exact ⟨j, n, by omega, by simpa using h1, h2⟩
+    have split0 : (∃ j n, i = k + j ∧ (d :: ds)[j]? = some (Def.frag n) ∧ Requests t n) ↔
+        (∃ n, i = k ∧ d = Def.frag n ∧ Requests t n) ∨
+        ∃ j n, i = k + (j + 1) ∧ (d :: ds)[j + 1]? = some (Def.frag n) ∧ Requests t n := by
+      constructor
+      · rintro ⟨j, n, rfl, h1, h2⟩
+        cases j with
+        | zero => left; exact ⟨n, by simp, by simpa using h1, h2⟩
+        | succ j => right; exact ⟨j, n, rfl, h1, h2⟩
+      · rintro (⟨n, rfl, rfl, h2⟩ | ⟨j, n, rfl, h1, h2⟩)
+        · exact ⟨0, n, by simp, by simp, h2⟩
+        · exact ⟨j + 1, n, rfl, h1, h2⟩
+    rw [split0, ← shift, ← ih (k + 1)]
+    cases d with
+    | other => simp [requestedFrom]
+    | frag m =>
+      simp only [requestedFrom]
+      by_cases hr : Requests t m
+      · simp only [hr, if_true, List.mem_cons, Def.frag.injEq]
+        constructor
+        · rintro (rfl | h)
+          · left; exact ⟨m, rfl, rfl, hr⟩
+          · right; exact h
+        · rintro (⟨n, rfl, _, _⟩ | h)
+          · left; rfl
+          · right; exact h
+      · simp only [hr, if_false, Def.frag.injEq]
+        constructor
+        · exact Or.inr
+        · rintro (⟨n, _, rfl, h⟩ | h)
+          · exact absurd h hr
+          · exact h
+
+theorem mem_lineSel {q : κ} {imp : Import ρ} {x : DefId κ} :
+    x ∈ lineSel res fs q imp ↔ res q imp.rel = x.1 ∧
+      ∃ ds n, defsAt fs x.1 = some ds ∧ ds[x.2]? = some (Def.frag n) ∧ Requests imp.targets n := by
+  unfold lineSel
+  obtain ⟨a, b⟩ := x
+  cases hd : defsAt fs (res q imp.rel) with
+  | none =>
+    simp only [List.not_mem_nil, false_iff]
+    rintro ⟨h1, ds, n, h2, _⟩
+    rw [← h1, hd] at h2
+    cases h2
+  | some ds =>
+    simp only [List.mem_map, mem_requestedFrom, Prod.mk.injEq]
+    constructor
+    · rintro ⟨i, ⟨j, n, rfl, h1, h2⟩, rfl, rfl⟩
+      exact ⟨rfl, ds, n, hd, by simpa using h1, h2⟩
+    · rintro ⟨h1, ds', n, h2, h3, h4⟩
+      subst h1
+      rw [hd] at h2
+      injection h2 with h2
+      subst h2
+      exact ⟨b, ⟨b, n, by simp, h3, h4⟩, rfl, rfl⟩
+
+theorem mem_refImports (x : DefId κ) : x ∈ refImports res fs root rootFile ↔ InRef res fs root rootFile x := by
+  unfold refImports InRef Selected
+  simp only [mem_dedup, List.mem_filter, List.mem_flatMap, mem_reachList, mem_lineSel, decide_eq_true_eq]
+  constructor
+  · rintro ⟨⟨q, hq, imp, hi, h1, ds, n, h2, h3, h4⟩, hn⟩
+    exact ⟨⟨q, imp, ds, n, hq, hi, h1, h2, h3, h4⟩, hn⟩
+  · rintro ⟨⟨q, imp, ds, n, hq, hi, h1, h2, h3, h4⟩, hn⟩
+    exact ⟨⟨q, hq, imp, hi, h1, ds, n, h2, h3, h4⟩, hn⟩
+
+theorem nodup_refImports : (refImports res fs root rootFile).Nodup := nodup_dedup _
+
+theorem lineBad_iff {q : κ} {imp : Import ρ} :
+    lineBad res fs q imp = true ↔ defsAt fs (res q imp.rel) = none ∨
+      ∃ ds n, defsAt fs (res q imp.rel) = some ds ∧ n ∈ namesOf imp.targets ∧ Def.frag n ∉ ds := by
+  unfold lineBad
+  cases hd : defsAt fs (res q imp.rel) with
+  | none => simp
+  | some ds =>
+    simp only [List.any_eq_true, Bool.not_eq_eq_eq_not, Bool.not_true, List.contains_eq_mem, decide_eq_false_iff_not,
+      Option.some.injEq, false_or, reduceCtorEq]
+    constructor
+    · rintro ⟨n, h1, h2⟩; exact ⟨ds, n, rfl, h1, h2⟩
+    · rintro ⟨_, n, rfl, h1, h2⟩; exact ⟨n, h1, h2⟩
+
+theorem refError_iff :
+    refError res fs root rootFile = true ↔ Dangling res fs root rootFile ∨ MissingName res fs root rootFile := by
+  unfold refError Dangling MissingName
+  simp only [List.any_eq_true, mem_reachList, lineBad_iff]
+  constructor
+  · rintro ⟨q, hq, imp, hi, h | ⟨ds, n, h1, h2, h3⟩⟩
+    · exact Or.inl ⟨q, imp, hq, hi, h⟩
+    · exact Or.inr ⟨q, imp, ds, n, hq, hi, h1, h2, h3⟩
+  · rintro (⟨q, imp, hq, hi, h⟩ | ⟨q, imp, ds, n, hq, hi, h1, h2, h3⟩)
+    · exact ⟨q, hq, imp, hi, Or.inl h⟩
+    · exact ⟨q, hq, imp, hi, Or.inr ⟨ds, n, h1, h2, h3⟩⟩
 
 end NitroVerif.Imports
